@@ -418,7 +418,13 @@ def rule_closed_forms(repo: Repo, rep: Report) -> None:
         guard = next((a for a in ancestors(r) if isinstance(a, ast.If)), None)
         good = guard is not None and unparse(guard.test) == "all_zero"
         weakened = guard is not None and isinstance(guard.test, ast.BoolOp) and isinstance(guard.test.op, ast.Or) and any(unparse(v_) == "all_zero" for v_ in guard.test.values)
-        rep.shape(good, guard is None or weakened, "CLOSED-FORM", fi, f"acceptance: return p under `{unparse(guard.test) if guard else 'no guard'}`", "candidate returned only if it vanished on every conjugate", "candidate polynomial is returned without the vanishing test")
+        # for/else form: `for conj in conjugates: ... if val != 0: break` / `else: return p`
+        forelse = next((a for a in ancestors(r) if isinstance(a, ast.For) and any(r is y for b_ in a.orelse for y in ast.walk(b_))), None)
+        if guard is None and forelse is not None:
+            brk = [b_ for b_ in ast.walk(forelse) if isinstance(b_, ast.Break)]
+            brk_ok = bool(brk) and all(any(isinstance(g_, ast.If) and isinstance(g_.test, ast.Compare) and isinstance(g_.test.ops[0], ast.NotEq) and unparse(g_.test.comparators[0]) in ("0", "self.field.zero", "field.zero") for g_ in ancestors(b_)) for b_ in brk) and "conjugate" in unparse(forelse.iter)
+            good = brk_ok
+        rep.shape(good, (guard is None and forelse is None) or weakened, "CLOSED-FORM", fi, f"acceptance: return p under `{unparse(guard.test) if guard else 'no guard'}`", "candidate returned only if it vanished on every conjugate", "candidate polynomial is returned without the vanishing test")
     rep.floor("minimal_polynomial acceptance returns", len(acc_rets), 1)
     clear = [x for x in stmts_of(fi.body) if isinstance(x, ast.If) and any(isinstance(y, ast.Assign) and unparse(y) == "all_zero = False" for y in x.body)]
     for x in clear:
